@@ -125,3 +125,32 @@ func verifH_C17_names() {
 	verifAssert(bd != nil && bd.Value != nil && bd.Value.Properties["name"] != nil, "C17 names back: the definition comes back")
 	verifReach("end")
 }
+
+//verif:harness id=C17 tier=quick,thorough witness=end bounds="documents at the small end of the convertible fragment: no paths (paths: {}), with or without definitions / a host / security definitions: the OpenAPI 3 document passes validation and converts back to a document with the same (empty) paths and the same definitions"
+func verifH_C17_minimal() {
+	doc := &openapi2.T{Swagger: "2.0", Info: openapi3.Info{Title: "t", Version: "1"}, Paths: map[string]*openapi2.PathItem{}}
+	if verifChoose("host", 2) == 1 {
+		doc.Host, doc.BasePath, doc.Schemes = "h.example", "/v1", []string{"https"}
+	}
+	hasDefs := verifChoose("definitions", 2) == 1
+	if hasDefs {
+		doc.Definitions = map[string]*openapi2.SchemaRef{"Item": {Value: &openapi2.Schema{Type: &openapi3.Types{"string"}}}}
+	}
+	if verifChoose("security", 2) == 1 {
+		doc.SecurityDefinitions = map[string]*openapi2.SecurityScheme{"basic": {Type: "basic"}}
+	}
+	doc3, err := ToV3(doc)
+	verifAssert(err == nil && doc3 != nil, "C17 minimal: the document converts")
+	if err != nil || doc3 == nil {
+		return
+	}
+	verifAssert(doc3.Validate(context.Background()) == nil, "C17 minimal: the converted document passes validation")
+	verifAssert(doc3.Paths != nil && doc3.Paths.Len() == 0, "C17 minimal: no paths in, no paths out")
+	back, err := FromV3(doc3)
+	verifAssert(err == nil && back != nil, "C17 minimal: the converted document converts back")
+	if err != nil || back == nil {
+		return
+	}
+	verifAssert(len(back.Paths) == 0 && (len(back.Definitions) == 1) == hasDefs && back.Host == doc.Host && back.BasePath == doc.BasePath, "C17 minimal: the same document comes back")
+	verifReach("end")
+}
